@@ -64,19 +64,23 @@ def readExact : Nat → Bytes → Option (Bytes × Bytes)
 
 def maxDataBlock : Nat := 500 * 1024 * 1024
 
+/-- `str::trim` then `parse::<usize>()` -/
+def parseUsizeTrim (sz : Bytes) : Option Nat :=
+  if !utf8Valid sz then none else
+  let t := trim sz
+  let digits := match t with
+    | c :: r => if c == 0x2b then r else c :: r
+    | [] => []
+  if digits.isEmpty || !allDigits digits then none else some (decVal 0 digits)
+
 /-- `parse_data_size_header` -/
 def parseDataHeader (line : Bytes) : Option Nat :=
   match stripPrefix? line b!"data " with
   | none => none
   | some sz =>
-    if !utf8Valid sz then none else
-    let t := trim sz
-    let digits := match t with
-      | c :: r => if c == 0x2b then r else c :: r
-      | [] => []
-    if digits.isEmpty || !allDigits digits then none else
-    let n := decVal 0 digits
-    if n > maxDataBlock then none else some n
+    match parseUsizeTrim sz with
+    | none => none
+    | some n => if n > maxDataBlock then none else some n
 
 def dataHeader (n : Nat) : Bytes := b!"data " ++ natToDec n ++ [B.lf]
 
@@ -203,46 +207,69 @@ def spliceParents : List Seg → List Bytes → Bytes
 
 def firstLine (b : Bytes) : Bytes := (readLine b).1
 
-/-- the blank line that ends a commit (rule 11, "end of commit") -/
-def endCommit (o : FOpts) (s : FState) : FState :=
+/-- what `finalize_parent_lines` leaves behind at the end of a commit -/
+structure CommitEnd where
+  buf : Bytes                    -- the commit buffer with its parent lines rewritten
+  firstParent : Option Nat
+  kept : Nat
+  wasMerge : Bool
+  isDegenerate : Bool
+
+def commitEndInfo (s : FState) : CommitEnd :=
   let segs := s.segs.reverse
   let ps := parentsOf segs
-  let originalParents := ps.length
-  let (buf, firstParent, kept) :=
-    if ps.isEmpty then ((segs.map segBytes).flatten, (none : Option Nat), 0)
-    else
-      let r := finalizeParents (fun m => s.emitted.contains m) s.alias ps
-      (spliceParents segs r.lines, r.firstParentMark, r.kept)
-  let wasMerge := decide (originalParents ≥ 2)
-  let isDegenerate := wasMerge && decide (kept < 2)
-  let s := { s with firstParentMark := firstParent }
-  let s :=
-    if shouldKeepCommit s.hasChanges firstParent s.commitMark kept wasMerge isDegenerate o.prune then
-      let s := s.emit (buf ++ [B.lf])
-      match s.commitOid, s.commitMark with
-      | some old, some m => { s with pairs := (old, some m) :: s.pairs, commitOid := none }
-      | _, _ => { s with commitOid := none }
-    else
-      let s := match s.commitOid with
-        | some old => { s with pairs := (old, none) :: s.pairs, commitOid := none }
-        | none => s
-      match s.commitMark, firstParent with
-      | some oldMark, some parentMark =>
-        let canonical := resolveCanonical s.alias parentMark
-        if s.emitted.contains canonical then
-          let hdr := firstLine buf
-          let resetPart :=
-            if lastIs B.lf hdr && startsWith buf b!"commit " then
-              b!"reset " ++ (dropLast hdr).drop 7 ++ b!"\nfrom :" ++ natToDec canonical ++ b!"\n\n"
-            else []
-          { s with alias := (oldMark, canonical) :: s.alias }.emit (buildAlias oldMark canonical ++ resetPart)
-        else s
-      | _, _ => s
-  -- caller: `CommitAction::Ended`
+  let wasMerge := decide (ps.length ≥ 2)
+  if ps.isEmpty then
+    { buf := (segs.map segBytes).flatten, firstParent := none, kept := 0, wasMerge := wasMerge, isDegenerate := wasMerge }
+  else
+    let r := finalizeParents (fun m => s.emitted.contains m) s.alias ps
+    { buf := spliceParents segs r.lines, firstParent := r.firstParentMark, kept := r.kept,
+      wasMerge := wasMerge, isDegenerate := wasMerge && decide (r.kept < 2) }
+
+def keepDecision (o : FOpts) (s : FState) (e : CommitEnd) : Bool :=
+  shouldKeepCommit s.hasChanges e.firstParent s.commitMark e.kept e.wasMerge e.isDegenerate o.prune
+
+/-- keep: emit the buffered commit; record (original id, mark) when both are known -/
+def recordKept (s : FState) (e : CommitEnd) : FState :=
+  let s := s.emit (e.buf ++ [B.lf])
+  match s.commitOid, s.commitMark with
+  | some old, some m => { s with pairs := (old, some m) :: s.pairs, commitOid := none }
+  | _, _ => { s with commitOid := none }
+
+/-- the `alias` stanza of a pruned commit, followed by the reset that moves the ref named in the
+    commit header onto the surviving ancestor -/
+def aliasAndReset (buf : Bytes) (oldMark canonical : Nat) : Bytes :=
+  let hdr := firstLine buf
+  buildAlias oldMark canonical ++
+    (if lastIs B.lf hdr && startsWith buf b!"commit " then
+       b!"reset " ++ (dropLast hdr).drop 7 ++ b!"\nfrom :" ++ natToDec canonical ++ b!"\n\n"
+     else [])
+
+/-- prune: record (original id, none); alias the mark to the canonical first parent if that was emitted -/
+def recordDropped (s : FState) (e : CommitEnd) : FState :=
+  let s := match s.commitOid with
+    | some old => { s with pairs := (old, none) :: s.pairs, commitOid := none }
+    | none => s
+  match s.commitMark, e.firstParent with
+  | some oldMark, some parentMark =>
+    let canonical := resolveCanonical s.alias parentMark
+    if s.emitted.contains canonical then
+      { s with alias := (oldMark, canonical) :: s.alias }.emit (aliasAndReset e.buf oldMark canonical)
+    else s
+  | _, _ => s
+
+/-- `CommitAction::Ended` in the caller: the commit's own mark counts as emitted, the buffer is closed -/
+def closeCommitState (s : FState) : FState :=
   let s := match s.commitMark with
     | some m => { s with emitted := m :: s.emitted }
     | none => s
   { s with inCommit := false, segs := [] }
+
+/-- the blank line that ends a commit (rule 11, "end of commit") -/
+def endCommit (o : FOpts) (s : FState) : FState :=
+  let e := commitEndInfo s
+  let s := { s with firstParentMark := e.firstParent }
+  closeCommitState (if keepDecision o s e then recordKept s e else recordDropped s e)
 
 /-! ### the `M` line pre-check of rule 11b -/
 
